@@ -16,19 +16,19 @@ Definition wR_auxd : solver_result :=
 Definition wR_full : solver_result :=
   mkResult (SComplex (NFloat 1 0) (NFloat 1 1))
     (AuxDict [(AKStr "type", SNum (NInt 1)); (AKInt 3, SComplex (NFloat 1 0) (NFloat 0 0))])
-    (Some (mkQuasi [(0, NFloat 1 (-1)); (3, NFloat 1 (-1))] (Some (NInt 10)) None)) (Some wI) (Some [3; 4]) (Some 2)
+    (Some (mkQuasi [(0, NFloat 1 (-1)); (3, NFloat 1 (-1))] (Some (NInt 10)) None 3)) (Some wI) (Some [3; 4]) (Some 2)
     (Some [mkPopEval wP [Some (NFloat 1 (-1)); None] wI (NFloat 1 (-1))]) (Some "QPY0").
 
 (* F-C18a: with the decoder writing result.generation, a result with generations = 3 comes back with None *)
 Lemma generations_refuted :
-  exists r y, result_roundtrip (mkFlags true false) (of_solver_result r) = Ok y /\ y <> of_solver_result r.
+  exists r y, result_roundtrip (mkFlags true false false) (of_solver_result r) = Ok y /\ y <> of_solver_result r.
 Proof. exists wR_min. eexists. split; [vm_compute; reflexivity | intro H; discriminate H]. Qed.
 
 (* F-C18b: list-valued and dict-valued auxiliary results come back as None *)
 Lemma aux_refuted :
-  (exists r y, result_roundtrip (mkFlags false true) (of_solver_result r) = Ok y /\ y <> of_solver_result r
+  (exists r y, result_roundtrip (mkFlags false true false) (of_solver_result r) = Ok y /\ y <> of_solver_result r
                /\ exists l, r_aux r = AuxList l)
-  /\ (exists r y, result_roundtrip (mkFlags false true) (of_solver_result r) = Ok y /\ y <> of_solver_result r
+  /\ (exists r y, result_roundtrip (mkFlags false true false) (of_solver_result r) = Ok y /\ y <> of_solver_result r
                /\ exists l, r_aux r = AuxDict l).
 Proof.
   split.
@@ -36,8 +36,20 @@ Proof.
   - exists wR_auxd. eexists. split; [vm_compute; reflexivity | split; [intro H; discriminate H | eexists; reflexivity]].
 Qed.
 
+(* F-C18d: measure_quasi_distributions builds the eigenstate from bitstring keys; '010' measured with probability 1 is the
+   distribution {2: 1.0} of width 3.  Without the stored width the round trip yields width 2 ('10'). *)
+Definition wQ_010 : quasi := mkQuasi [(2, NFloat 1 0)] (Some (NInt 1000)) None 3.
+Definition wR_width : solver_result := mkResult (SNum (NFloat (-1) (-1))) AuxNone (Some wQ_010) None None None None None.
+Lemma eigenstate_width_refuted :
+  quasi_binary_keys [(PInt 2, PNum (NFloat 1 0))] 3 = Ok ["010"]
+  /\ result_roundtrip (mkFlags false false true) (of_solver_result wR_width)
+     = Ok (of_solver_result (mkResult (SNum (NFloat (-1) (-1))) AuxNone
+                               (Some (mkQuasi [(2, NFloat 1 0)] (Some (NInt 1000)) None 2)) None None None None None))
+  /\ quasi_binary_keys [(PInt 2, PNum (NFloat 1 0))] 2 = Ok ["10"].
+Proof. repeat split; vm_compute; reflexivity. Qed.
+
 (* the same witnesses round-trip under HEAD's behaviour *)
 Lemma head_witnesses_roundtrip :
   forallb (fun r => result_eqb pyval_eqb (result_roundtrip head_flags (of_solver_result r)) (Ok (of_solver_result r)))
-          [wR_min; wR_aux; wR_auxd; wR_full] = true.
+          [wR_min; wR_aux; wR_auxd; wR_full; wR_width] = true.
 Proof. vm_compute. reflexivity. Qed.
